@@ -145,7 +145,7 @@ def shard(ctx):
         while not ctx.out_of_time():
             rng = ctx.rng(i)
             i += ctx.nshards
-            w = workload.draw(rng, kinds=("isa", "casc", "corpus", "mut", "isamut", "macro"), weights=(3, 3, 3, 3, 1, 4))
+            w = workload.draw(rng, kinds=("isa", "casc", "corpus", "mut", "isamut", "macro", "ifs"), weights=(3, 3, 3, 3, 1, 4, 1))
             if rng.random() < 0.3:
                 w = with_sibling_files(rng, w)
             if rng.random() < 0.08:
